@@ -774,7 +774,7 @@ func runC05(cfg *vh.Config) error {
 	}
 	// file layer: a third family of shards (few, large cases)
 	ff := &vh.CasesFile{
-		Header: "From Coq Require Import String List NArith ZArith.\nFrom J5V.model Require Import ProtoPrintLit ProtoPrint ProtoPrintCorr ProtoPrintFile ProtoParseFile ProtoPrintFileCorr.",
+		Header: "From Coq Require Import String List NArith ZArith.\nFrom J5V.model Require Import ProtoPrintLit ProtoPrint ProtoLex ProtoPrintCorr ProtoPrintFile ProtoParseFile ProtoPrintFileCorr.",
 		Type:   "c05file",
 		Check:  "c05_file_check",
 	}
